@@ -75,6 +75,10 @@ SlateShapes ==
               coms |-> <<TRUE>>, hascoms |-> TRUE, proof |-> "sig"],
     S3p  |-> [off |-> TRUE,  np |-> FALSE, amt |-> FALSE, fee |-> TRUE,  feat |-> 0, ttl |-> FALSE, sigs |-> <<TRUE, TRUE>>,
               coms |-> <<FALSE, TRUE, TRUE>>, hascoms |-> TRUE, proof |-> "sig"],
+    I2p  |-> [off |-> TRUE,  np |-> FALSE, amt |-> TRUE,  fee |-> TRUE,  feat |-> 0, ttl |-> TRUE,  sigs |-> <<TRUE>>,
+              coms |-> <<FALSE, TRUE>>, hascoms |-> TRUE, proof |-> "none"],
+    BIG  |-> [off |-> TRUE,  np |-> TRUE,  amt |-> TRUE,  fee |-> TRUE,  feat |-> 0, ttl |-> TRUE,  sigs |-> <<TRUE, FALSE, TRUE>>,
+              coms |-> <<FALSE, FALSE, TRUE, TRUE>>, hascoms |-> TRUE, proof |-> "sig"],
     FULL |-> [off |-> TRUE,  np |-> TRUE,  amt |-> TRUE,  fee |-> TRUE,  feat |-> 2, ttl |-> TRUE,  sigs |-> <<FALSE, TRUE>>,
               coms |-> <<FALSE, TRUE>>, hascoms |-> TRUE, proof |-> "sig"] ]
 
@@ -282,15 +286,18 @@ Shape(slate, packSender, metaSender, nrec, method) ==
   [slate |-> slate, pack |-> [sender |-> packSender], meta |-> [sender |-> metaSender, nrec |-> nrec], rpc |-> [method |-> method]]
 Instances ==
   [ armor_plain |-> [a1 |-> Shape("S1p", TRUE, FALSE, 0, ""), a2 |-> Shape("S2p", FALSE, FALSE, 0, ""), a3 |-> Shape("FULL", TRUE, FALSE, 0, "")],
-    armor_enc   |-> [e1 |-> Shape("S2p", FALSE, TRUE, 0, ""), e2 |-> Shape("S1p", FALSE, TRUE, 2, ""), e3 |-> Shape("S3p", FALSE, FALSE, 0, "")],
+    armor_enc   |-> [e1 |-> Shape("S2p", FALSE, TRUE, 0, ""), e2 |-> Shape("S1p", FALSE, TRUE, 2, ""), e3 |-> Shape("S3p", FALSE, FALSE, 0, ""),
+                     e4 |-> Shape("BIG", FALSE, TRUE, 3, "")],
     bin_plain   |-> [b1 |-> Shape("S1p", TRUE, FALSE, 0, ""), b2 |-> Shape("S3p", FALSE, FALSE, 0, "")],
     bin_enc     |-> [c1 |-> Shape("S2p", FALSE, TRUE, 1, ""), c2 |-> Shape("MIN", FALSE, FALSE, 0, "")],
     json_plain  |-> [j1 |-> Shape("S1p", TRUE, FALSE, 0, ""), j2 |-> Shape("S2p", FALSE, FALSE, 0, "")],
     json_enc    |-> [k1 |-> Shape("S2p", FALSE, TRUE, 0, "")],
     slatebin    |-> [MIN |-> Shape("MIN", FALSE, FALSE, 0, ""), S1p |-> Shape("S1p", FALSE, FALSE, 0, ""), S2p |-> Shape("S2p", FALSE, FALSE, 0, ""),
-                     S3p |-> Shape("S3p", FALSE, FALSE, 0, ""), FULL |-> Shape("FULL", FALSE, FALSE, 0, "")],
+                     S3p |-> Shape("S3p", FALSE, FALSE, 0, ""), FULL |-> Shape("FULL", FALSE, FALSE, 0, ""),
+                     I2p |-> Shape("I2p", FALSE, FALSE, 0, ""), BIG |-> Shape("BIG", FALSE, FALSE, 0, "")],
     slatejson   |-> [MIN |-> Shape("MIN", FALSE, FALSE, 0, ""), S1p |-> Shape("S1p", FALSE, FALSE, 0, ""), S2p |-> Shape("S2p", FALSE, FALSE, 0, ""),
-                     S3p |-> Shape("S3p", FALSE, FALSE, 0, ""), FULL |-> Shape("FULL", FALSE, FALSE, 0, "")],
+                     S3p |-> Shape("S3p", FALSE, FALSE, 0, ""), FULL |-> Shape("FULL", FALSE, FALSE, 0, ""),
+                     I2p |-> Shape("I2p", FALSE, FALSE, 0, ""), BIG |-> Shape("BIG", FALSE, FALSE, 0, "")],
     spaddr      |-> [ad |-> Shape("MIN", FALSE, FALSE, 0, "")],
     onion       |-> [on |-> Shape("MIN", FALSE, FALSE, 0, "")],
     proofjson   |-> [pp |-> Shape("MIN", FALSE, FALSE, 0, "")],
@@ -336,16 +343,16 @@ Thorough == Depth = "thorough"
 BinStructural(lf, last) ==
   {Mu("trunc_before", ""), Mu("delete", ""), Mu("dup", "")}
   \cup (IF lf.w >= 2 \/ lf.k \in {"blob", "rest"} THEN {Mu("trunc_inside", "")} ELSE {})
-  \cup (IF last THEN {Mu("extend", "1"), Mu("extend", "64")} ELSE {})
+  \cup (IF last THEN {Mu("extend", "1"), Mu("extend", "64")} \cup (IF Thorough THEN {Mu("extend", "4096")} ELSE {}) ELSE {})
 FlagBits(lf) ==
   IF Thorough THEN 0..(8 * lf.w - 1)
   ELSE lf.bits \cup {8 * lf.w - 1} \cup {CHOOSE b \in 0..(8 * lf.w - 1) : b \notin lf.bits}
 BinValue(lf) ==
-  CASE lf.k = "fix" /\ lf.a = "none"  -> {Mu("fill", "zero"), Mu("fill", "ones")}
+  CASE lf.k = "fix" /\ lf.a = "none"  -> {Mu("fill", "zero"), Mu("fill", "ones")} \cup (IF Thorough THEN {Mu("flip", "0"), Mu("flip", Str(8 * lf.w - 1))} ELSE {})
     [] lf.k = "fix" /\ lf.a = "secp"  -> {Mu("fill", "zero"), Mu("badpoint", "prefix"), Mu("badpoint", "offcurve")}
     [] lf.k = "fix" /\ lf.a = "edpk"  -> {Mu("badpoint", "nondecomp")}
     [] lf.k = "fix" /\ lf.a = "edsig" -> {Mu("badpoint", "highs")}
-    [] lf.k = "u" /\ lf.a = "plain"   -> {Mu("set", "v0"), Mu("set", "max")}
+    [] lf.k = "u" /\ lf.a = "plain"   -> {Mu("set", "v0"), Mu("set", "max")} \cup (IF Thorough THEN {Mu("set", "v1"), Mu("set", "dec"), Mu("set", "inc")} ELSE {})
     [] lf.k = "u" /\ lf.a \in {"enumS", "enumT"} -> {Mu("set", "v" \o Str(lf.x + 1)), Mu("set", "max")}
     [] lf.k = "u" /\ lf.a \in {"pres1", "presnz"} -> {Mu("set", "v0"), Mu("set", "v1"), Mu("set", "v2"), Mu("set", "max")}
     [] lf.k = "u" /\ lf.a = "feat"    -> {Mu("set", "v0"), Mu("set", "v1"), Mu("set", "v2"), Mu("set", "v3"), Mu("set", "max")}
@@ -514,6 +521,7 @@ BinEff(ly, Ls, j, mu, sh) ==
                                  ELSE IF lf.a = "edpk" THEN PanicAt("v4_bin.rs::ProofWrap::read#unwrap")
                                  ELSE PanicAt("v4_bin.rs::ProofWrap::read#unwrap")                  \* edsig
     [] mu.m \in {"nonutf8", "char"} -> E("err")                                                   \* address text: from_utf8 / bech32 checksum
+    [] mu.m = "flip" /\ lf.k = "fix" -> IF ly = "b58" THEN E("err") ELSE E("cont")                   \* a bit of an unchecked fixed field
     [] mu.m = "flip"         -> IF mu.a \in {Str(b) : b \in lf.bits} THEN Havoc_Misaligned          \* an optional field appears / disappears
                                  ELSE E("cont")                                                   \* reserved bits are ignored
     [] mu.m = "set" /\ lf.a = "plain" -> E("cont")
